@@ -120,7 +120,7 @@ func setBlacklist(add bool, addrs ...common.Address) {
 }
 
 func schedScenarios(quick bool, workers int) []schedScenario {
-	n := workers + 2
+	n := workers + 1
 	if !quick {
 		n = workers + 3
 	}
@@ -128,9 +128,11 @@ func schedScenarios(quick bool, workers int) []schedScenario {
 		n = 4
 	}
 	var out []schedScenario
-	caches := []string{"cold", "mixed"}
+	caches := []string{"mixed"}
 	if !quick {
 		caches = []string{"cold", "warm", "mixed"}
+	} else {
+		out = append(out, schedScenario{n, -1, -1, "cold"}, schedScenario{n, -1, -1, "warm"})
 	}
 	for _, c := range caches {
 		out = append(out, schedScenario{n, -1, -1, c})
@@ -231,6 +233,15 @@ func schedChild(r *vk.Run, label string) {
 		for i, tx := range good {
 			truth[i], _ = txkit.WireCopy(tx).From()
 		}
+		twins := make(types.Txs, s.N)
+		twinSender := make([]common.Address, s.N)
+		for i, tx := range good {
+			twins[i] = schedTwin(tx, i)
+			twinSender[i], _ = twins[i].From()
+			if twinSender[i] == truth[i] || twins[i].Hash() == tx.Hash() {
+				vk.Fatalf("sched: twin is not a twin")
+			}
+		}
 		if s.Black >= 0 {
 			setBlacklist(true, recipient(s.Black))
 		}
@@ -257,14 +268,14 @@ func schedChild(r *vk.Run, label string) {
 				if cached {
 					c := txkit.WireCopy(tx)
 					if checked {
-						c.From() // AddTx's basic check computed and cached the sender
+						storeSender(c, truth[i]) // AddTx's basic check computed and cached the sender
 					}
 					entries = append(entries, mempl.VerifC05CacheEntry{Tx: c, Checked: checked})
 				}
 				if s.Cache == "mixed" {
 					// a same-fields-different-signature twin of every transaction is in the cache too
-					if tw := schedTwin(tx, i); tw != nil {
-						tw.From()
+					if tw := txkit.WireCopy(twins[i]); tw != nil {
+						storeSender(tw, twinSender[i])
 						entries = append(entries, mempl.VerifC05CacheEntry{Tx: tw, Checked: true})
 					}
 				}
@@ -343,6 +354,18 @@ func schedChild(r *vk.Run, label string) {
 	bz, _ := json.Marshal(res)
 	fmt.Println("C05SCHED " + string(bz))
 	os.Exit(0)
+}
+
+// storeSender puts a known sender into the transaction's signature cache (what From() leaves there after recovering it).
+func storeSender(tx types.Tx, a common.Address) {
+	switch t := tx.(type) {
+	case *types.Transaction:
+		t.StoreFrom(a)
+	case *types.TokenTransaction:
+		t.StoreFrom(a)
+	default:
+		tx.From()
+	}
 }
 
 // schedTwin: same sign fields as tx, signed by the next account (another funded sender).
